@@ -38,6 +38,6 @@ SPEC = {
         "start/stop (periodic sweep lifecycle) and cl (which of two Redis clients) answer nothing and are invisible to the reference; watch answers like get",
         "linearizability theorem: one burst at a fixed clock reading from the empty store; schedules that let every caller finish (`completes`)",
         "mem timing: a burst of calls between two sleeps must finish within 25 ms (measured; the case is rerun otherwise); model clock: 1 ns per call",
-        "Redis half restricted to the operations and shapes the repositories use: kv keys hold non-empty strings; list/hash members are strings; lifetimes 0, 0.5 s, 2 s, 1 h; answers compared through repoView (missing list = empty list, missing hash = empty hash, SetExpiration on a missing key = ok); Exists / GetExpiration / SetExpiration on kv, list, hash and counter keys; Redis cannot represent an empty list/hash (the key vanishes with its lifetime): the comparison covers every call up to and including the first one that empties a container (Spec.comparableLen), the as-found Redis side of the model mirrors the vanishing",
+        "Redis half restricted to the operations and shapes the repositories use: kv keys hold non-empty strings; list/hash members are strings; lifetimes 0, 0.5 s, 2 s, 1 h; answers compared through repoView (missing list = empty list, missing hash = empty hash, SetExpiration on a missing key = ok); Exists / GetExpiration / SetExpiration on kv, list, hash and counter keys; degenerate arguments included (empty list, empty field, zero increment, empty key, empty string as value/member/expectation, negative lifetimes); Redis cannot represent an empty list/hash (the key vanishes with its lifetime): every answer is judged by the reference except an answer on which the reference with vanishing empty containers (Spec.vanishRun) differs from the reference (holdsRepo_admits); a key never changes its kind within a Redis history (WRONGTYPE vs invalid type / SetHash reset are outside the shapes)",
     ],
 }
